@@ -269,6 +269,9 @@ Gen(T) ==
          \cup { MkDict(Repl(base, 1, <<MkStr(T.fs[i].n), m1(i)>>)) : i \in DOMAIN T.fs }
          \cup { MkDict(Repl(base, 1, <<MkStr(T.fs[i].out), m1(i)>>)) : i \in DOMAIN T.fs }
          \cup { MkDict(Append(base, <<MkStr(T.fs[i].n), m1(i)>>)) : i \in {j \in DOMAIN T.fs : T.fs[j].init = "F"} }
+         \* the Python name beside an input name of the same field, when the Python name is not itself an input name
+         \cup { MkDict(Append(base, <<MkStr(T.fs[i].n), m1(i)>>)) :
+                   i \in {j \in DOMAIN T.fs : T.fs[j].init = "T" /\ \A q \in DOMAIN T.fs[j].ins : T.fs[j].ins[q] # T.fs[j].n} }
          \* unknown key, non-string key, missing first field, wrong lengths, non-containers
          \cup { MkDict(Append(base, <<MkStr("s_zz"), MkInt(1)>>)),
                 MkDict(Append(base, <<MkInt(1), MkInt(1)>>)),
@@ -393,6 +396,14 @@ KFac == TCls("KFac", << Fld("s_a", TInt, NoDef), Fld("s_b", TListI, DefFac(MkLis
                         Fld("s_c", TSeq("set", TInt), DefFac([k |-> "set", f |-> "set", es |-> <<>>])) >>, <<"struct", "tuple">>, "struct")
 KHook == [TCls("KHook", << Fld("s_a", TInt, NoDef), Fld("s_b", TInt, DefVal(MkInt(5))) >>, <<"struct", "tuple">>, "struct")
             EXCEPT !.hook = [k |-> "rejectif", f |-> "s_b", c |-> [k |-> "neg"]]]
+(* a hook that looks at the record of explicitly set fields: s_b must not be given explicitly *)
+KHookSet == [TCls("KHookSet", << Fld("s_a", TInt, NoDef), Fld("s_b", TInt, DefVal(MkInt(5))) >>, <<"struct", "tuple">>, "struct")
+              EXCEPT !.hook = [k |-> "rejectifset", f |-> "s_b"]]
+(* a subclass that inherits its __post_init__ (and the first two fields) from KHook and adds a field *)
+KChild == [k |-> "cls", name |-> "KChild",
+           fs |-> << Fld("s_a", TInt, NoDef), Fld("s_b", TInt, DefVal(MkInt(5))), Fld("s_c", TStr, DefVal(MkStr("s_c"))) >>,
+           inf |-> <<"struct", "tuple">>, outf |-> "struct", extra |-> "F",
+           hook |-> [k |-> "rejectif", f |-> "s_b", c |-> [k |-> "neg"]], parent |-> KHook]
 KHookF == [TCls("KHookF", << Fld("s_a", TInt, NoDef), Fld("s_b", TListI, DefFac(MkList(<<>>))) >>, <<"struct", "tuple">>, "struct")
             EXCEPT !.hook = [k |-> "rejectif", f |-> "s_b", c |-> [k |-> "nonempty"]]]
 KExtra == [TCls("KExtra", << Fld("s_a", TInt, NoDef), Fld("s_b", TInt, DefVal(MkInt(5))) >>, <<"struct">>, "struct")
@@ -403,7 +414,7 @@ KTupKw == TCls("KTupKw", << Fld("s_a", TInt, NoDef), FldX("s_b", TInt, DefVal(Mk
 KNest == TCls("KNest", << Fld("s_a", KAlias, NoDef), Fld("s_b", TSeq("list", KTup), DefFac(MkList(<<>>))) >>, <<"struct", "tuple">>, "struct")
 KOpt == TCls("KOpt", << Fld("s_a", TOpt(TInt), DefVal(MkInt(5))), Fld("s_b", TUnion(<<TInt, TStr>>), DefVal(MkInt(5))) >>,
              <<"struct", "tuple">>, "struct")
-ClsLeaves == { KAlias, KInNames, KRenameF, KExcl, KKw, KInit, KInitT, KInitFac, KFac, KHook, KHookF, KExtra, KTup, KTupKw, KNest, KOpt }
+ClsLeaves == { KAlias, KInNames, KRenameF, KExcl, KKw, KInit, KInitT, KInitFac, KFac, KHook, KChild, KHookSet, KHookF, KExtra, KTup, KTupKw, KNest, KOpt }
 
 (* C15: the naming rules.  A class is written with a SPELLING (class-level rename styles, per-field    *)
 (* rename / aliases / in_names / out_name) and the rules below derive each field's input names and    *)
